@@ -98,7 +98,10 @@ def run(ctx, res):
     bad_ops = [("ops/a.graphql", "query A($x: Int) { a(zeta: 1, alpha: 2, mid: 3, beta: 4) @nope1 @nope2 @nope3 b(x: $x, q1: 1, q2: 2, q3: 3) nf1 nf2 nf3 q { a(u1: 1, u2: 2) } }\n"
                                  "query B { a @dq(s: 1, t1: 1, t2: 2, t3: 3) ...Gone1 ...Gone2 n { ... on U { name(a1: 1, a2: 2, a3: 3) } } }\n"),
                ("ops/b.graphql", "query C($v1: Nope1, $v2: Nope2, $v3: Nope3) { b(x: $w1, s: $w2, l: $w3) }\nfragment F1 on Nowhere1 { a }\nfragment F2 on Nowhere2 { a }\n"),
-               ("ops/c.graphql", "query D { a(zeta: 1, alpha: 2, mid: 3, beta: 4) }\n")]
+               ("ops/c.graphql", "query D { a(zeta: 1, alpha: 2, mid: 3, beta: 4) }\n"),
+               # fragments that no operation of their file spreads, each with a fault of its own, one spreading another
+               ("ops/d.graphql", "fragment U1 on Query { nope1 }\nfragment U2 on Query { nope2 }\nfragment U3 on Query { nope3 ...U4 }\n"
+                                 "fragment U4 on Query { nope4 }\nfragment U5 on Query { nope5 ...U2 }\n")]
     cases.append({"name": "faulty-ops", "faulty": True, "schemaFiles": ops_schema, "opFiles": [{"rel": r, "text": t} for r, t in bad_ops], "config": CONFIG,
                   "runs": 4 if ctx.quick else 12, "perms": [], "schemaOutput": "gen/schema.d.ts", "schemaSource": "../gen/schema.js"})
     # the same layout in several files: diagnostics of different files at the SAME line and column (differing in message only), plus a
